@@ -15,8 +15,13 @@ import (
 // simClock reads the bubble's fake clock.
 type simClock struct{}
 
-func (simClock) NowNanoseconds() int64 { return time.Now().UnixNano() }
-func (simClock) NowMonotonic() int64   { return time.Now().UnixNano() }
+func (simClock) NowNanoseconds() int64 {
+	if f := clockYield; f != nil {
+		f()
+	}
+	return time.Now().UnixNano()
+}
+func (simClock) NowMonotonic() int64 { return time.Now().UnixNano() }
 
 // Node is one real stack with one simulated NIC.
 type Node struct {
